@@ -171,3 +171,21 @@ def shapeOfSexp (s : String) : Option Shape :=
   | _ => none
 
 end ShapeVerif
+
+namespace ShapeVerif
+mutual
+/-- all member names are ASCII: the fragment on which `display` models `char::is_alphanumeric` exactly -/
+def asciiKeys : Shape → Bool
+  | .array t _ => asciiKeys t
+  | .object c _ => asciiKeysMembers c
+  | .oneOf vs _ => asciiKeysList vs
+  | .tuple es _ => asciiKeysList es
+  | _ => true
+def asciiKeysList : List Shape → Bool
+  | [] => true
+  | s :: l => asciiKeys s && asciiKeysList l
+def asciiKeysMembers : Members → Bool
+  | [] => true
+  | (k, v) :: l => k.toList.all (fun c => c.toNat < 128) && asciiKeys v && asciiKeysMembers l
+end
+end ShapeVerif
